@@ -33,18 +33,18 @@ def coefficient_functions(shot, calc):
     return shot.atmo.get_density_factor_and_mach_for_altitude, drag
 
 
-def segments(wind_spec):
+def segments(wind_spec, shift=0.0):
     """[mph, deg_from, until_yd|None] -> sorted [(until_ft, (wx, wy, wz))]; 0 deg = tail wind, 90 deg = from the left"""
     out = []
     for mph, deg, until in wind_spec:
         v = mph * 5280.0 / 3600.0
         r = math.radians(deg)
-        out.append((until * 3.0 if until is not None else 1e8, (v * math.cos(r), 0.0, v * math.sin(r))))
+        out.append((until * 3.0 + shift if until is not None else 1e8, (v * math.cos(r), 0.0, v * math.sin(r))))
     return sorted(out, key=lambda s: s[0])
 
 
-def solve(spec, wind_spec, atmo_fn, drag_fn, alt0, dists_ft, dt=4e-5, g=G):
-    segs = segments(wind_spec)
+def solve(spec, wind_spec, atmo_fn, drag_fn, alt0, dists_ft, dt=4e-5, g=G, boundary_shift=0.0):
+    segs = segments(wind_spec, boundary_shift)
     s = initial_state(spec)
 
     def mkf(w):
